@@ -40,6 +40,9 @@ type Ctx struct {
 	cgCHA *callgraph.Graph
 	cgVTA *callgraph.Graph
 
+	callSites  map[*ssa.Function][]ssa.CallInstruction
+	valueTaken map[*ssa.Function]bool
+
 	Obls      []*Obligation
 	Notes     []string
 	RuleDocs  map[string]string
@@ -523,4 +526,40 @@ func OwnerName(n *types.Named) string {
 		pkg = strings.TrimPrefix(strings.TrimPrefix(n.Obj().Pkg().Path(), Module), "/")
 	}
 	return pkg + "." + n.Obj().Name()
+}
+
+// CallSites returns, for every function of the repository, its static call
+// sites (Call, Go and Defer instructions), and the set of functions whose
+// value is taken (stored, passed, bound): those can be called from anywhere.
+func (c *Ctx) CallSites() (map[*ssa.Function][]ssa.CallInstruction, map[*ssa.Function]bool) {
+	if c.callSites != nil {
+		return c.callSites, c.valueTaken
+	}
+	c.callSites = map[*ssa.Function][]ssa.CallInstruction{}
+	c.valueTaken = map[*ssa.Function]bool{}
+	for fn := range c.AllFuncs {
+		if fn.Pkg == nil || !strings.HasPrefix(fn.Pkg.Pkg.Path(), Module) {
+			continue
+		}
+		for _, b := range fn.Blocks {
+			for _, in := range b.Instrs {
+				if call, ok := in.(ssa.CallInstruction); ok {
+					if f := call.Common().StaticCallee(); f != nil {
+						c.callSites[f] = append(c.callSites[f], call)
+					}
+				}
+				for _, op := range in.Operands(nil) {
+					f, ok := (*op).(*ssa.Function)
+					if !ok {
+						continue
+					}
+					if call, isCall := in.(ssa.CallInstruction); isCall && call.Common().Value == ssa.Value(f) {
+						continue
+					}
+					c.valueTaken[f] = true
+				}
+			}
+		}
+	}
+	return c.callSites, c.valueTaken
 }
